@@ -104,17 +104,44 @@ def _hash64(s):
                                           digest_size=8).digest(), 'big')
 
 
+_timeouts = [0]
+_tier = ['thorough']
+_maxcpu = [0.0]
+AFTER_TIMEOUT_BUDGET = 10.0
+MAX_TIMEOUTS_PER_WORKER = 3
+
+
 def run_one(driver, case):
     """Run one case under the CPU watchdog; CaseTimeout that escapes the
-    driver becomes a violation (no property tolerates a hang)."""
+    driver becomes a violation (no property tolerates a hang).
+
+    The budget is generous (a case bundles many renders).  Once a worker
+    has seen a case exceed it, the verdict is already "violated": the
+    remaining cases of that worker get a short budget, and after
+    MAX_TIMEOUTS_PER_WORKER timeouts they are skipped (counted, and the
+    evidence says that the enumeration was cut short) - a library that
+    hangs must not turn a check into an hours-long run."""
     budget = getattr(driver, 'CASE_CPU_SECONDS', CASE_CPU_SECONDS)
+    if _tier[0] == 'quick':
+        # the quick tier's cases are much smaller: tighter budget (still
+        # about ten times the slowest case measured on a loaded machine)
+        budget = getattr(driver, 'CASE_CPU_SECONDS_QUICK', budget)
+    if _timeouts[0] >= MAX_TIMEOUTS_PER_WORKER:
+        res = Res(outcome='skipped-after-timeouts')
+        res.evals = 0
+        return res
+    if _timeouts[0]:
+        budget = min(budget, AFTER_TIMEOUT_BUDGET)
     signal.setitimer(signal.ITIMER_VIRTUAL, budget)
+    t0 = time.process_time()
     try:
         try:
             res = driver.run(case)
         finally:
             signal.setitimer(signal.ITIMER_VIRTUAL, 0)
+            _maxcpu[0] = max(_maxcpu[0], time.process_time() - t0)
     except CaseTimeout:
+        _timeouts[0] += 1
         res = Res(nontrivial=True, outcome='timeout')
         res.violate('termination', 'timeout',
                     'case exceeded %.1fs CPU' % budget)
@@ -143,6 +170,7 @@ def run_one(driver, case):
 
 def _worker(args):
     pid, tier, shard, nshards, seed = args
+    _tier[0] = tier
     signal.signal(signal.SIGVTALRM, _on_timer)
     driver = load_driver(pid)
     agg = {
@@ -164,6 +192,7 @@ def _worker(args):
             agg['outcomes'][res.outcome] += 1
             for k, v in res.counters.items():
                 agg['counters'][k] += v
+            agg['maxcpu'] = max(agg.get('maxcpu', 0.0), _maxcpu[0])
             agg['states'] += res.states
             agg['transitions'] += res.transitions
             agg['traces'] += res.traces
@@ -197,7 +226,8 @@ def _worker(args):
 _dyn = {}
 
 
-def _dyn_init(pid):
+def _dyn_init(pid, tier='thorough'):
+    _tier[0] = tier
     signal.signal(signal.SIGVTALRM, _on_timer)
     _dyn['driver'] = load_driver(pid)
 
@@ -221,6 +251,7 @@ def _dyn_case(args):
         agg['evaluations'] = res.evals
         agg['outcomes'][res.outcome] += 1
         agg['counters'].update(res.counters)
+        agg['maxcpu'] = _maxcpu[0]
         agg['states'], agg['transitions'], agg['traces'] = \
             res.states, res.transitions, res.traces
         if res.nt_count is not None:
@@ -259,6 +290,7 @@ def merge(aggs):
         for k in ('evaluations', 'cases', 'nontrivial', 'distinct_overflow',
                   'states', 'transitions', 'traces'):
             out[k] += a[k]
+        out['maxcpu'] = max(out.get('maxcpu', 0.0), a.get('maxcpu', 0.0))
         out['distinct'] |= a['distinct']
         out['outcomes'].update(a['outcomes'])
         out['counters'].update(a['counters'])
@@ -334,7 +366,7 @@ def check(pid, tier='quick', jobs=None, seed=0):
         todo = list(enumerate(driver.cases(tier)))
         todo = todo[seed % max(len(todo), 1):] + \
             todo[:seed % max(len(todo), 1)]
-        with ctx.Pool(jobs, initializer=_dyn_init, initargs=(pid,)) as pool:
+        with ctx.Pool(jobs, initializer=_dyn_init, initargs=(pid, tier)) as pool:
             aggs = list(pool.imap_unordered(_dyn_case, todo, chunksize=1))
     elif jobs == 1:
         aggs = [_worker(args[0])]
@@ -392,6 +424,11 @@ def check(pid, tier='quick', jobs=None, seed=0):
         'counters': dict(agg['counters']),
         'exhaustive': bool(getattr(driver, 'EXHAUSTIVE', True)),
         'workers': jobs,
+        'max_case_cpu_s': round(agg.get('maxcpu', 0.0), 2),
+        'case_cpu_budget_s': getattr(
+            driver, 'CASE_CPU_SECONDS_QUICK' if tier == 'quick' else
+            'CASE_CPU_SECONDS', getattr(driver, 'CASE_CPU_SECONDS',
+                                        CASE_CPU_SECONDS)),
         'known_findings_seen': sorted(s for s in by_sig if s in known),
         'source_tree': src,
     }
